@@ -26,6 +26,18 @@ Oracles (every clause has its own bucket prefix):
              unhashable, catch-all __getattr__; for classmethods the class is made falsy through its metaclass) and the
              script can flip the truth value between calls. With config.strict the mixed run sets
              AUTOGRAPH_STRICT_CONVERSION=1 so that errors inside the call wrapper are not hidden by the silent fallback.
+             Calls made from inside converted code draw the SHAPE of the call expression (spec['sites'], one generated driver
+             drv<i>_ per call): any sequence of explicit arguments and starred iterables (tuple, list, one-shot iterator,
+             generator, deque, str, bare __iter__ object; also a lone or an empty star), any sequence of explicit keywords
+             and double-starred mappings (dict, OrderedDict, mappingproxy, bare keys/__getitem__ object), callee a function,
+             bound method, functools.partial (also of a callable object), callable object or an attribute call o_.m(...).
+  environment (part of call / state)  the body of a def / method target may bind LOCALS (or rebind parameters) named like a
+             module global (GX, GY), like nothing else (lv_) or like an uncaptured local of the enclosing function, in
+             straight-line code or inside if / for / while / try, first bound before or inside the statement; a def / class
+             nested in the target may declare the same name global (write, read, read-modify-write, two levels deep, class
+             body, never called), nonlocal, or bind a local of its own, and is called before or after the statement. The
+             module dictionary entries of all such names are part of the observed state: the target's local must stay a
+             local, the nested helper must reach the module variable.
   call / writethrough / state   the script is run twice: on environment A only through the
              original functions (reference), on an identically built environment B where drawn
              operations go through the converted function (and converted sibling setters). Results
@@ -57,7 +69,12 @@ RULE = ('a case = one generated module + conversion configuration + script. Targ
         'catch-all __getattr__, truth value toggled by the script; optionally a callable object), 1-3 closures sharing one code '
         'object (factory called repeatedly or def inside a for loop). Calls on the converted side go through one of the routes '
         'direct / convert() wrapper / converted_call / call from inside converted code (callable passed in, attribute call, '
-        'callable object), optionally through functools.partial or the unbound function. Signatures: 0-2 (thorough 0-3) positional-only, positional-or-keyword, '
+        'callable object), optionally through functools.partial or the unbound function; the call expression inside converted '
+        'code has a drawn shape: explicit arguments / starred iterables (tuple, list, iterator, generator, deque, str, bare '
+        'iterable; lone, empty, several) x explicit keywords / double-starred mappings (dict, OrderedDict, mappingproxy, bare '
+        'mapping). Bodies of def / method targets may bind locals or rebind parameters that shadow a module global / an '
+        'uncaptured enclosing local / nothing, in straight-line code or control flow, with a nested def / class that declares '
+        'the name global or nonlocal or binds its own local. Signatures: 0-2 (thorough 0-3) positional-only, positional-or-keyword, '
         'keyword-only parameters, *args, **kwargs, defaults of kinds int/falsy/None/list/dict/object/enclosing-local, '
         'annotations, __defaults__/__kwdefaults__ replaced after definition. Closures: 0-4 free variables on 1-2 nesting '
         'levels with uses read / nested-only (called or never called) / rebinding (straight-line, if, if-else, for, while, try; '
@@ -102,6 +119,8 @@ LOG = []
 DLOG = []
 G0 = 100
 GW = 0
+GX = 300
+GY = 400
 
 
 class S(object):
@@ -286,7 +305,8 @@ def body_lines(spec):
   c0 = _cond_name(spec)
   lines = []
   stmts = [s for s in spec.get('stmts', [])
-           if (s['op'] not in ('rebind', 'nested') or s['var'] in fv) and (s['op'] != 'mutdef' or s['param'] in pn)]
+           if (s['op'] not in ('rebind', 'nested') or s['var'] in fv) and (s['op'] != 'mutdef' or s['param'] in pn)
+           and (s['op'] != 'local' or s['name'] not in fv)]
   nl = sorted({s['var'] for s in stmts if s['op'] == 'rebind'})
   if nl:
     lines.append('nonlocal ' + ', '.join(nl))
@@ -329,8 +349,67 @@ def body_lines(spec):
         extra_results.append('r%d_' % i)
       else:
         lines += ['def in%d_():' % i, '  return %s' % v]
+    elif op == 'local':
+      lines += local_lines(s, i, pn, c0, extra_results)
   lines.append('return ' + result_expr(spec, extra_results))
   return lines
+
+
+# a LOCAL variable of the target (or one of its parameters) that has the name of a module global (GX, GY), of nothing
+# else (lv_), or of an enclosing function's local that the target does not capture; optionally a def / class nested in
+# the target declares the same name `global` (it means the module variable there), `nonlocal` (the target's local
+# becomes a cell) or binds a local of its own. The target rebinds its local in straight-line code or inside control
+# flow: neither the module dictionary nor the enclosing cell may be touched, and the update must not get lost.
+LOCAL_DECLS = ['none', 'gdef-w', 'gdef-w', 'gdef-r', 'gdef-rmw', 'gdef2', 'gclass', 'gdef-uncalled', 'nonlocal', 'ownlocal']
+
+
+def local_lines(s, i, pn, c0, extra_results):
+  x, ctx, decl = s['name'], s['ctx'], s.get('decl', 'none')
+  is_param = x in pn
+  wo = s['mode'] == 'wo' or not (is_param or s.get('init', True))
+  rmw = ('(%s, 1)' % x) if is_param else (x + ' + 1')
+  rmw2 = ('(%s, 2)' % x) if is_param else (x + ' + 2')
+  h = 'h%d_' % i
+  helper, call = [], []
+  k = 900 + i
+  if decl == 'gdef-w' or decl == 'gdef-uncalled':
+    helper = ['def %s():' % h, '  global %s' % x, '  %s = %d' % (x, k), '  return %d' % i]
+  elif decl == 'gdef-r':
+    helper = ['def %s():' % h, '  global %s' % x, '  return %s' % x]
+  elif decl == 'gdef-rmw':
+    helper = ['def %s():' % h, '  global %s' % x, '  %s = %s + 1' % (x, x), '  return %s' % x]
+  elif decl == 'gdef2':
+    helper = ['def %s():' % h, '  def g_():', '    global %s' % x, '    %s = %d' % (x, k), '  g_()', '  return %d' % i]
+  elif decl == 'gclass':
+    helper = ['class K%d_(object):' % i, '  global %s' % x, '  %s = %d' % (x, k)]
+  elif decl == 'nonlocal':
+    helper = ['def %s():' % h, '  nonlocal %s' % x, '  %s = %d' % (x, k), '  return %d' % i]
+  elif decl == 'ownlocal':
+    helper = ['def %s():' % h, '  %s = %d' % (x, k), '  return %s' % x]
+  if helper and decl not in ('gclass', 'gdef-uncalled'):
+    call = ['r%d_ = %s()' % (i, h)]
+    extra_results.append('r%d_' % i)
+  if ctx == 'plain':
+    flow = ['%s = %s' % (x, c0 if wo else rmw)]
+  elif ctx == 'if':
+    flow = ['if %s:' % c0, '  %s = %s' % (x, c0 if wo else rmw)]
+  elif ctx == 'ifelse':
+    flow = ['if %s:' % c0, '  %s = %s' % (x, c0 if wo else rmw), 'else:', '  %s = %s' % (x, '11' if wo else rmw2)]
+  elif ctx == 'for':
+    flow = ['for it_ in (%s, 12):' % c0, '  %s = %s' % (x, 'it_' if wo else rmw)]
+  elif ctx == 'while':
+    flow = ['n_ = 2', 'while n_ > 0:', '  %s = %s' % (x, 'n_ + 40' if wo else rmw), '  n_ = n_ - 1']
+  else:
+    flow = ['try:', '  %s = %s' % (x, c0 if wo else rmw), 'finally:', '  pass']
+  out = []
+  if not is_param and s.get('init', True):
+    out.append('%s = %d' % (x, 60 + i))
+  order = s.get('order', 'hcf')   # h = helper definition, c = its call, f = the control-flow statement
+  for ch in order:
+    out += {'h': helper, 'c': call, 'f': flow}[ch]
+  if not is_param:
+    extra_results.append(x)
+  return out
 
 
 def result_expr(spec, extra=()):
@@ -511,7 +590,211 @@ def render(spec):
     L += _ind(mk, 2)
     entry = 'make'
   L += ['', '', 'def build():', '  return merge([%s(c_) for c_ in range(%d)])' % (entry, copies), '']
+  for idx, site in enumerate(spec.get('sites', [])):
+    L += ['', ''] + site_lines(idx, site)
+  if spec.get('sites'):
+    L.append('')
   return '\n'.join(L)
+
+
+# --------------------------------------------------------------------------------------------------
+# call sites inside converted code (routes inner / inner_attr / inner_obj)
+#
+# A site is the shape of one call expression in a driver function that is converted (recursively) and then calls the
+# ORIGINAL callable: positional part = sequence of explicit arguments and starred iterables, keyword part = sequence of
+# explicit keywords and double-starred mappings,
+#     drv3_(fn_, e0_, s1_, v0_, m1_):  return fn_(e0_, *s1_, k=v0_, **m1_)
+# The starred value is a tuple, list, one-shot iterator, generator, deque, str or a bare iterable (only __iter__); the
+# mapping a dict, OrderedDict, mappingproxy or a bare mapping (only keys / __getitem__). Whatever the shape, the call must
+# bind like the plain call target(*pos, **kw) of the original.
+
+STAR_FLAVOURS = ['tuple', 'list', 'iter', 'gen', 'deque', 'custom', 'str']
+MAP_FLAVOURS = ['dict', 'ordered', 'proxy', 'custom']
+
+
+class BareIterable(object):
+
+  def __init__(self, xs):
+    self._xs = list(xs)
+
+  def __iter__(self):
+    return iter(self._xs)
+
+
+class BareMapping(object):
+
+  def __init__(self, d):
+    self._d = dict(d)
+
+  def keys(self):
+    return list(self._d)
+
+  def __getitem__(self, k):
+    return self._d[k]
+
+
+def site_lines(idx, site):
+  params, args = ['fn_'], []
+  for j, el in enumerate(site['pos']):
+    if el[0] == 'e':
+      params.append('e%d_' % j)
+      args.append('e%d_' % j)
+    else:
+      params.append('s%d_' % j)
+      args.append('*s%d_' % j)
+  for j, el in enumerate(site['kw']):
+    if el[0] == 'k':
+      params.append('v%d_' % j)
+      args.append('%s=v%d_' % (el[1], j))
+    else:
+      params.append('m%d_' % j)
+      args.append('**m%d_' % j)
+  callee = 'fn_.m' if site.get('callee') == 'attr' else 'fn_'
+  return ['def drv%d_(%s):' % (idx, ', '.join(params)), '  return %s(%s)' % (callee, ', '.join(args))]
+
+
+def site_fits(site, pos, kw):
+  """The site was drawn for one argument list; a shrunk / edited script may no longer match it."""
+  n = sum(1 if el[0] == 'e' else el[2] for el in site['pos'])
+  names = []
+  for el in site['kw']:
+    names += [el[1]] if el[0] == 'k' else list(el[2])
+  return n == len(pos) and names == list(kw)
+
+
+def _star_value(flavour, xs):
+  import collections
+  xs = list(xs)
+  if flavour == 'str' and not all(isinstance(x, str) and len(x) == 1 for x in xs):
+    flavour = 'list'
+  if flavour == 'tuple':
+    return tuple(xs)
+  if flavour == 'list':
+    return xs
+  if flavour == 'iter':
+    return iter(xs)
+  if flavour == 'gen':
+    return (x for x in xs)
+  if flavour == 'deque':
+    return collections.deque(xs)
+  if flavour == 'str':
+    return ''.join(xs)
+  return BareIterable(xs)
+
+
+def _map_value(flavour, items):
+  import collections
+  import types
+  d = dict(items)
+  if flavour == 'ordered':
+    return collections.OrderedDict(items)
+  if flavour == 'proxy':
+    return types.MappingProxyType(d)
+  if flavour == 'custom':
+    return BareMapping(d)
+  return d
+
+
+def site_args(site, pos, kw):
+  """Arguments of the driver (after fn_) for this argument list; iterators are created afresh."""
+  out, i = [], 0
+  for el in site['pos']:
+    if el[0] == 'e':
+      out.append(pos[i])
+      i += 1
+    else:
+      out.append(_star_value(el[1], pos[i:i + el[2]]))
+      i += el[2]
+  for el in site['kw']:
+    if el[0] == 'k':
+      out.append(kw[el[1]])
+    else:
+      out.append(_map_value(el[1], [(n, kw[n]) for n in el[2]]))
+  return out
+
+
+def site_labels(site, pos):
+  """Class labels of one executed site."""
+  out = []
+  stars = [el for el in site['pos'] if el[0] == 's']
+  expl = [el for el in site['pos'] if el[0] == 'e']
+  for el in stars:
+    fl = el[1]
+    if fl == 'str':
+      i = sum(1 if e[0] == 'e' else e[2] for e in site['pos'][:site['pos'].index(el)])
+      if not all(isinstance(x, str) and len(x) == 1 for x in pos[i:i + el[2]]):
+        fl = 'list'
+    out.append('site:star=' + fl)
+  lone = len(stars) == 1 and not expl
+  if lone:
+    out.append('site:lone-star')
+    if 'site:star=tuple' not in out:
+      out.append('site:lone-star-not-a-tuple')
+  if len(stars) > 1:
+    out.append('site:several-stars')
+  if stars and expl:
+    out.append('site:explicit-and-star-mixed')
+  if not site['pos']:
+    out.append('site:no-positional-part')
+  maps = [el for el in site['kw'] if el[0] == 'm']
+  for el in maps:
+    out.append('site:map=' + el[1])
+  if any(el[0] == 'k' for el in site['kw']):
+    out.append('site:explicit-keywords')
+    if maps:
+      out.append('site:explicit-keywords-and-map-mixed')
+  if len(maps) > 1:
+    out.append('site:several-maps')
+  if not site['kw']:
+    out.append('site:no-keyword-part')
+  return out
+
+
+@st.composite
+def sites(draw, npos, kwnames, callee):
+  mode = draw(st.sampled_from(['classic', 'lone', 'lone', 'lone', 'mixed', 'mixed', 'mixed', 'mixed']))
+  if mode == 'classic':
+    return {'callee': callee, 'pos': [['s', 'tuple', npos]], 'kw': [['m', 'dict', list(kwnames)]]}
+  pos, kw = [], []
+  if mode == 'lone':
+    pos.append(['s', draw(st.sampled_from(STAR_FLAVOURS + ['list', 'gen'])), npos])
+  else:
+    left = npos
+    while left > 0 or (len(pos) < 4 and draw(st.integers(0, 3)) == 0):
+      if len(pos) >= 5:
+        pos.append(['s', draw(st.sampled_from(STAR_FLAVOURS)), left])
+        left = 0
+      elif left > 0 and draw(st.booleans()):
+        pos.append(['e'])
+        left -= 1
+      else:
+        n = draw(st.integers(0, left))
+        pos.append(['s', draw(st.sampled_from(STAR_FLAVOURS)), n])
+        left -= n
+  names = list(kwnames)
+  while names or (len(kw) < 2 and draw(st.integers(0, 3)) == 0):
+    if names and draw(st.booleans()):
+      kw.append(['k', names.pop(0)])
+    else:
+      n = len(names) if len(kw) >= 4 else draw(st.integers(0, len(names)))
+      kw.append(['m', draw(st.sampled_from(MAP_FLAVOURS + ['dict'])), names[:n]])
+      names = names[n:]
+  return {'callee': callee, 'pos': pos, 'kw': kw}
+
+
+def dynamic_shape(step, has_recv):
+  """(number of positional arguments, keyword names) that reach the call expression of a dynamic route: what
+  _dynamic_call computes from the step (instance prepended for an unbound function, arguments frozen in a partial)."""
+  route = step['route']
+  npos, names = len(step['bind']['pos']), [k for k, _ in step['bind']['kw']]
+  if route not in ('convert_obj', 'inner_obj') and step.get('unbound') and has_recv and route != 'inner_attr':
+    npos += 1
+  part = step.get('partial')
+  if part and route != 'inner_attr':
+    npos -= min(part['npos'], npos)
+    if part['kw']:
+      names = []
+  return npos, names
 
 
 # --------------------------------------------------------------------------------------------------
@@ -525,6 +808,9 @@ FREE_NAMES = ['aa', 'zz', 'm', 'v', 'ab', 'ah', 'x1', 'u', 'ag', 'b2']
 DEF_KINDS = ['int', 'zero', 'none', 'list', 'list1', 'dict', 'obj', 'local', 'str', 'tuple0']
 ANNOS = [None, None, None, None, 'int', "'str'", 'S']
 CTXS = ['plain', 'if', 'ifelse', 'for', 'while', 'try']
+# module-dictionary entries observed after every script step: the real globals and every name a target may use for a local
+# or a parameter (a converted function that binds one of its locals in the module dictionary creates such an entry)
+WATCHED_GLOBALS = ['G0', 'GW', 'GX', 'GY', 'lv_'] + PO_NAMES + PK_NAMES + KO_NAMES + ['args', 'rest', 'kw', 'opts'] + FREE_NAMES
 
 
 @st.composite
@@ -631,8 +917,14 @@ def specs(draw, maxk=2):
         ops += ['rebind'] * 4 + ['nested'] * 2
       if mut_params:
         ops += ['mutdef'] * 2
+      ops += ['local'] * 3
       op = draw(st.sampled_from(ops))
-      if op == 'rebind':
+      if op == 'local':
+        pool = ['GX'] * 4 + ['GY', 'lv_', 'lv_'] + [p['name'] for p in params] + list(spec.get('uncaptured', []))
+        stmts.append({'op': op, 'name': draw(st.sampled_from(pool)), 'ctx': draw(st.sampled_from(CTXS)),
+                      'mode': draw(st.sampled_from(['wo', 'rmw', 'rmw'])), 'decl': draw(st.sampled_from(LOCAL_DECLS)),
+                      'order': draw(st.sampled_from(['hcf', 'hfc', 'hfc', 'fhc'])), 'init': draw(st.integers(0, 3)) != 0})
+      elif op == 'rebind':
         stmts.append({'op': op, 'var': draw(st.sampled_from([v['name'] for v in free])),
                       'ctx': draw(st.sampled_from(CTXS)), 'mode': draw(st.sampled_from(['wo', 'wo', 'rmw']))})
       elif op == 'grebind':
@@ -710,11 +1002,11 @@ def cases(draw, maxk=2):
   script = []
   nops = draw(st.integers(3, 8))
   meth = is_method(spec['kind'])
-  routes = ['direct'] * 5 + ['convert'] * 2 + ['cc', 'inner']
+  routes = ['direct'] * 5 + ['convert'] * 2 + ['cc', 'inner', 'inner']
   if meth and spec.get('meth') != 'classmethod':
     routes += ['inner_attr']
     if spec.get('callable'):
-      routes += ['convert_obj', 'inner_obj'] * 2
+      routes += ['convert_obj', 'inner_obj', 'inner_obj'] * 2
   for _ in range(nops):
     kinds = ['call'] * 6 + ['gset']
     if keys:
@@ -729,13 +1021,18 @@ def cases(draw, maxk=2):
       # (instance passed first); convert = api.convert(...)(target)(...); cc = api.converted_call(target, args, kwargs);
       # inner / inner_attr = the call is made from inside converted code (recursive conversion of the callee)
       step['route'] = draw(st.sampled_from(routes))
-      if step['route'] in ('convert', 'cc', 'inner') and draw(st.integers(0, 3)) == 0:
+      if step['route'] in ('convert', 'cc', 'inner', 'convert_obj', 'inner_obj') and draw(st.integers(0, 3)) == 0:
         step['partial'] = {'npos': draw(st.integers(0, len(step['bind']['pos']))), 'kw': draw(st.booleans())}
       if step['route'] == 'cc':
         step['kwnone'] = draw(st.booleans())
       if meth and spec.get('meth') != 'classmethod' and step['route'] in ('convert', 'cc', 'inner'):
         # the plain function found on the class, instance passed explicitly
         step['unbound'] = draw(st.integers(0, 4)) == 0
+      if step['side'] == 'c' and step['route'] in ('inner', 'inner_attr', 'inner_obj') and draw(st.integers(0, 5)) != 0:
+        # shape of the call expression inside the converted driver (without: the fixed fn_(*a_, **k_) of the prelude)
+        n_, names_ = dynamic_shape(step, meth)
+        spec.setdefault('sites', []).append(draw(sites(n_, names_, 'attr' if step['route'] == 'inner_attr' else 'name')))
+        step['site'] = len(spec['sites']) - 1
       script.append(step)
     elif k == 'toggle':
       script.append({'op': 'toggle', 'ti': draw(st.integers(0, nt - 1))})
@@ -745,7 +1042,7 @@ def cases(draw, maxk=2):
     elif k == 'drop':
       script.append({'op': 'drop', 'key': draw(st.sampled_from(keys))})
     else:
-      script.append({'op': 'gset', 'name': draw(st.sampled_from(['G0', 'GW'])), 'val': draw(st.integers(200, 209))})
+      script.append({'op': 'gset', 'name': draw(st.sampled_from(['G0', 'GW', 'GX'])), 'val': draw(st.integers(200, 209))})
   cfg = {
       'entry': draw(st.sampled_from(['to_graph'] * 4 + ['private'] * 2)),
       'recursive': draw(st.sampled_from([True, True, False])),
@@ -811,7 +1108,7 @@ def _driver(name, mod, cfg, tr, drivers, fails_out):
   return drivers[name]
 
 
-def _dynamic_call(step, target, ref, recv, pos, kw, mod, cfg, tr, drivers, fails_out):
+def _dynamic_call(step, target, ref, recv, pos, kw, mod, cfg, tr, drivers, fails_out, sites_=None, stats=None):
   """A call of the original `target` (function or bound method) that reaches its converted version through dynamic
   conversion. Must behave like target(*pos, **kw)."""
   from malt.core import converter
@@ -836,6 +1133,25 @@ def _dynamic_call(step, target, ref, recv, pos, kw, mod, cfg, tr, drivers, fails
     opts = converter.ConversionOptions(recursive=rec, user_requested=True, optional_features=feats)
     kwarg = None if (not kw2 and step.get('kwnone')) else kw2
     return _outcome(api.converted_call, (callee, tuple(pos2), kwarg), {'options': opts})
+  site = None
+  if route in ('inner', 'inner_attr') and step.get('site') is not None and sites_ and step['site'] < len(sites_):
+    site = sites_[step['site']]
+    if not site_fits(site, pos2, kw2) or (site.get('callee') == 'attr') != (route == 'inner_attr'):
+      site = None
+  if site is not None:
+    if stats is not None:
+      what = ('partial' if isinstance(callee, functools.partial) else
+              'callable-object' if (callee is recv and route == 'inner') else
+              'attribute-call' if route == 'inner_attr' else
+              'bound-method' if inspect.ismethod(callee) else 'function')
+      labels = site_labels(site, pos2)
+      for l_ in labels + ['site:callee=' + what]:
+        stats[l_] = stats.get(l_, 0) + 1
+      if 'site:lone-star-not-a-tuple' in labels and what != 'function':
+        l_ = 'site:lone-star-not-a-tuple->' + what
+        stats[l_] = stats.get(l_, 0) + 1
+    drv = _driver('drv%d_' % step['site'], mod, cfg, tr, drivers, fails_out)
+    return _outcome(drv, [recv if route == 'inner_attr' else callee] + site_args(site, pos2, kw2), {})
   if route == 'inner':
     return _outcome(_driver('drive', mod, cfg, tr, drivers, fails_out), (callee, tuple(pos2), kw2), {})
   if route == 'inner_attr':
@@ -850,7 +1166,8 @@ def _peek(env, mod):
   dflt = []
   for r in env['refs']:
     dflt.append([repr(r.__defaults__), repr(r.__kwdefaults__)])
-  return {'cells': cells, 'globals': [repr(mod.G0), repr(mod.GW)], 'defaults': dflt}
+  md = mod.__dict__
+  return {'cells': cells, 'globals': [[n, repr(md[n])] for n in WATCHED_GLOBALS if n in md], 'defaults': dflt}
 
 
 def _cellmap(fn):
@@ -920,7 +1237,7 @@ def static_clauses(ref, conv, mod, is_bound_method, fails, tag):
       fails.append(('method:instance-first', {'conv': str(sc), 'conversion': tag}))
 
 
-def _run_script(script, env, mod, convs, cfg, tr, mixed, fails_out, stats=None):
+def _run_script(script, env, mod, convs, cfg, tr, mixed, fails_out, stats=None, sites_=None):
   """Executes the script; returns the list of observations. On env B (mixed) steps with side 'c'
   go through converted functions."""
   obs = []
@@ -951,7 +1268,8 @@ def _run_script(script, env, mod, convs, cfg, tr, mixed, fails_out, stats=None):
             k_ = 'route:%s:%s' % (route, 'receiver-falsy-at-call' if tv is False else 'receiver-truth-raises')
             stats[k_] = stats.get(k_, 0) + 1
       if side == 'c' and route != 'direct':
-        r = _dynamic_call(step, env['targets'][ti], env['refs'][ti], recv, pos, kw, mod, cfg, tr, drivers, fails_out)
+        r = _dynamic_call(step, env['targets'][ti], env['refs'][ti], recv, pos, kw, mod, cfg, tr, drivers, fails_out,
+                          sites_, stats)
       elif side == 'c':
         if recv is not None:
           pos = [recv] + pos
@@ -1129,7 +1447,7 @@ def run_case(case):
     if cfg.get('strict'):
       os.environ['AUTOGRAPH_STRICT_CONVERSION'] = '1'
     try:
-      ob = _run_script(script, envB, modB, convs, cfg, tr, True, side_fails, stats)
+      ob = _run_script(script, envB, modB, convs, cfg, tr, True, side_fails, stats, (case.get('spec') or {}).get('sites'))
     finally:
       if old_strict is None:
         os.environ.pop('AUTOGRAPH_STRICT_CONVERSION', None)
@@ -1217,6 +1535,19 @@ def classes_of(case, info):
       cls.append('nested-use:' + s['form'])
     elif s['op'] == 'mutdef':
       cls.append('mutates-default')
+    elif s['op'] == 'local' and s['name'] not in fv:
+      what = ('param' if any(p['name'] == s['name'] for p in ps) else
+              'shadows-module-global' if s['name'] in ('GX', 'GY') else
+              'shadows-uncaptured-enclosing-local' if s['name'] in spec.get('uncaptured', []) else 'plain-local')
+      cls.append('local-rebind:%s:%s' % (what, s['ctx']))
+      cls.append('local-rebind:nested-decl=%s' % s.get('decl', 'none'))
+      inflow = s['ctx'] in ('if', 'ifelse', 'for', 'while')
+      if s.get('decl', 'none').startswith('g') and inflow:
+        cls.append('local-rebind:in-control-flow+nested-global-decl(%s)' % what)
+      if s.get('decl') == 'nonlocal' and inflow:
+        cls.append('local-rebind:in-control-flow+nested-nonlocal-decl')
+      if not s.get('init', True) and what != 'param':
+        cls.append('local-rebind:first-bound-inside-statement')
   if spec.get('deco'):
     cls.append('decorated:' + '+'.join(spec['deco']))
   if spec.get('super'):
@@ -1231,7 +1562,7 @@ def classes_of(case, info):
       cls.append('receiver-falsy-at-conversion' if fr else 'receiver-truth-raises-at-conversion')
   for k_, n_ in sorted((info.get('stats') or {}).items()):
     if n_:
-      cls.append('callee:' + k_ if k_ in ('partial', 'unbound') else k_)
+      cls.append('callee:' + k_ if k_ in ('partial', 'unbound') else k_)   # route:* and site:* labels come prefixed
   if any(st_['op'] == 'toggle' for st_ in case['script']):
     cls.append('script:toggles-receiver-truth')
   for st_ in case['script']:
